@@ -504,7 +504,8 @@ func (n *ForNode) renderForLoop(w io.Writer, ctx *RenderContext, seq interface{}
 		}
 
 	case reflect.Map:
-		keys := val.MapKeys()
+		// Visit the entries in an order that depends on the keys only
+		keys := sortedMapKeys(val)
 		for i, key := range keys {
 			// Set the loop variables
 			loopVars["loop"].(map[string]interface{})["index"] = i + 1
